@@ -50,10 +50,11 @@ class CommonJSONDecoder(json.JSONDecoder):
                 (isoformat, tzofs, tzname) = obj['type{datetime}']
                 parsed = datetime.datetime \
                     .strptime(isoformat, DATETIME_P_FORMAT)
-                if tzname is not None:
+                if tzofs is not None:
+                    offset = datetime.timedelta(seconds=tzofs)
+                    tz = datetime.timezone(offset, tzname) if tzname is not None else datetime.timezone(offset)
                     return datetime.datetime \
-                        .combine(parsed.date(), parsed.time(),
-                                 datetime.timezone(datetime.timedelta(seconds=tzofs), tzname))
+                        .combine(parsed.date(), parsed.time(), tz)
                 else:
                     return parsed
             except ValueError:
